@@ -162,6 +162,9 @@ class VisitOrder(Contract):
         return [name], {}
 
     def apply_at_call(self, I, fn, args, kwargs):
+        if getattr(I.p, "in_comprehension", False):
+            from pyvc.interp import Unsupported
+            raise Unsupported("a call that changes the bookkeeping state inside a comprehension (the comprehension rule covers pure element expressions)")
         names = self.call_names(fn, args, kwargs, I)
         n = V.lower(names["name"])
         env = fn.env
